@@ -120,8 +120,9 @@ def entropic_case(N, M=0):
                 u = -a * e + a * mean
                 c.assume(api.ge(api.exp(u), 1 + u))  # e^u >= 1 + u
         c.check("entropic cash-invariant: exp(a rho(x+c)) = exp(a rho(x)) exp(-a c)", api.eq(E(rxc), E(rx) * api.exp(-a * cst)))
-        c.check("entropic bounds: -max <= rho <= -min (exponential form)",
-                api.all_(api.ge(E(rx), api.exp(-a * api.maxv(*xs))), api.le(E(rx), api.exp(-a * api.minv(*xs)))))
+        # exp(-a .) is decreasing: exp(-a max x) = min_i exp(-a x_i), exp(-a min x) = max_i exp(-a x_i)
+        es = [api.exp(-a * e) for e in xs]
+        c.check("entropic bounds: -max <= rho <= -min (exponential form)", api.all_(api.ge(E(rx), api.minv(*es)), api.le(E(rx), api.maxv(*es))))
         c.check("entropic >= -mean (Jensen, exponential form)", api.ge(E(rx), api.exp(-a * mean)))
         if N > 1:
             c.control("control:entropic <= -mean", api.le(E(rx), api.exp(-a * mean)))
